@@ -37,7 +37,7 @@ func (c06) Budget(tier string) core.Budget {
 	if tier == "thorough" {
 		return core.Budget{Runs: 400000, WallCap: 20 * time.Minute}
 	}
-	return core.Budget{Runs: 5000, WallCap: 45 * time.Second}
+	return core.Budget{Runs: 15000, WallCap: 45 * time.Second}
 }
 
 var c06Sizes = []int{0, 1, 3, 4, 5, 7, 8, 9, 12, 20}
